@@ -92,6 +92,8 @@ func cmdCheck(args []string) {
 	if tier != "quick" && tier != "thorough" {
 		tier = "quick"
 	}
+	// the tier named on the command line decides everything (also what the solver layer reads from the environment)
+	os.Setenv("VERIF_TIER", tier)
 	seed := 0
 	if s := os.Getenv("VERIF_SEED"); s != "" {
 		seed, _ = strconv.Atoi(s)
